@@ -111,6 +111,11 @@ Proof. vm_compute. split; reflexivity. Qed.
    (clip to the window, then sum value * length over the finite pieces of the clipped table) *)
 Definition wint (c : stairsQ) : Qc := piece_integral (fin_pieces (get_values c)).
 
+(* wint is the number the model's integral pipeline (statistic._cache_integral_and_mean) returns for the clip *)
+Theorem wint_is_the_integral (c : stairsQ) fr : data c = Some fr -> (2 <= length (get_values c))%nat ->
+  fst (integral_and_mean c) = Some (wint c).
+Proof. intros Dc Hl. rewrite (integral_mean_spec c fr Dc Hl). reflexivity. Qed.
+
 Lemma clipped_right_limit (f c : stairsQ) a b : wf f -> clip f (Some a) (Some b) = Ok c ->
   wf c /\ sorted (get_values c) /\ tail_none None (get_values c) /\
   forall x, lookup false None (get_values c) x = if inside false (Some a) (Some b) x then lim LimRight f x else None.
@@ -184,3 +189,4 @@ Print Assumptions window_integral_additive.
 Print Assumptions window_integral_negate.
 Print Assumptions window_integral_scale.
 Print Assumptions window_integral_respects_deq.
+Print Assumptions wint_is_the_integral.
